@@ -50,6 +50,8 @@ FIELD_RANGES = {}
 
 # return-range summaries of analysed functions, filled by retsum.register(): callee path -> (lo, hi)
 RET_RANGES = {}
+# function path -> MIR projection list p such that the function returns `(*arg0).p` (a plain field getter)
+GETTERS = {}
 # function path -> entry facts established at every call site (argsum.py); swapped in per Facts object by the census
 PARAM_INFO = {}
 
@@ -110,7 +112,7 @@ def term_root(t):
 
 
 class State:
-    __slots__ = ("iv", "alias", "cmp", "rel", "ovf", "rngs", "vf", "disc")
+    __slots__ = ("iv", "alias", "cmp", "rel", "ovf", "rngs", "vf", "disc", "diff", "avail")
 
     def __init__(self):
         self.iv = {}      # term -> (lo, hi)
@@ -122,6 +124,8 @@ class State:
         self.vf = {}      # local of enum type -> (variant value, ((a_term, op, b_term), ...), ((term, lo, hi), ...)): facts that
                           # hold whenever the local is that variant (e.g. `slice.get(i)` is Some  =>  i < len)
         self.disc = {}    # local -> the local whose discriminant it holds
+        self.diff = {}    # local -> (a_term, b_term): the local holds exactly a - b (the checked subtraction passed)
+        self.avail = {}   # (op, a_term, b_term) -> term holding the result of that checked operation (available expression)
 
     def copy(self):
         s = State()
@@ -133,9 +137,20 @@ class State:
         s.rngs = dict(self.rngs)
         s.vf = dict(self.vf)
         s.disc = dict(self.disc)
+        s.diff = dict(self.diff)
+        s.avail = dict(self.avail)
         return s
 
     def kill_term(self, t):
+        if self.avail:
+            # the term holding an available expression's value dies (a temporary going out of scope): keep the value's
+            # interval as a snapshot, the operands are still unchanged
+            r = self.iv.get(t)
+            for k in [k for k, v in self.avail.items() if v == t]:
+                if r is not None and k[1] != t and k[2] != t:
+                    self.avail[k] = ("R", r[0], r[1])
+                else:
+                    del self.avail[k]
         self.iv.pop(t, None)
         for k in [k for k, v in self.alias.items() if v == t]:
             del self.alias[k]
@@ -148,6 +163,12 @@ class State:
             self.rngs[k] = (v[0], v[1], None, v[3])
         for k in [k for k, v in self.vf.items() if any(t in (r[0], r[2]) for r in v[1]) or any(b[0] == t for b in v[2])]:
             del self.vf[k]
+        if self.diff:
+            for k in [k for k, v in self.diff.items() if k == t or v[0] == t or v[1] == t]:
+                del self.diff[k]
+        if self.avail:
+            for k in [k for k in self.avail if k[1] == t or k[2] == t]:
+                del self.avail[k]
 
     def kill(self, l):
         """local l is (re)assigned"""
@@ -168,6 +189,14 @@ class State:
             self.rel -= stale
         for k in [k for k, v in self.alias.items() if isinstance(v, tuple) and v[0] in ("P", "L") and v[1] == l]:
             del self.alias[k]
+        if self.diff:
+            for k in [k for k, v in self.diff.items() if any(isinstance(x, tuple) and x[0] in ("P", "L") and x[1] == l for x in (k,) + tuple(v))]:
+                del self.diff[k]
+        if self.avail:
+            for k in [k for k, v in self.avail.items() if any(isinstance(x, tuple) and x[0] in ("P", "L") and x[1] == l for x in (k[1], k[2], v))]:
+                del self.avail[k]
+            for k in [k for k, v in self.avail.items() if v == l or k[1] == l or k[2] == l]:
+                del self.avail[k]
 
     def mem_terms(self):
         out = set()
@@ -184,6 +213,14 @@ class State:
         for v in self.rngs.values():
             if isinstance(v[2], tuple):
                 out.add(v[2])
+        for k, v in self.diff.items():
+            for t in (k,) + tuple(v):
+                if isinstance(t, tuple) and t[0] in ("P", "L"):
+                    out.add(t)
+        for k, v in self.avail.items():
+            for t in (k[1], k[2], v):
+                if isinstance(t, tuple) and t[0] in ("P", "L") and len(t) == 3 and not isinstance(t[1], str):
+                    out.add(t)
         for v in self.vf.values():
             for r in v[1]:
                 for t in (r[0], r[2]):
@@ -206,7 +243,24 @@ class State:
             else:
                 del self.iv[k]
                 changed = True
-        for d_self, d_o in ((self.alias, o.alias), (self.cmp, o.cmp), (self.ovf, o.ovf), (self.vf, o.vf), (self.disc, o.disc)):
+        for k in list(self.ovf):
+            a, b = self.ovf[k], o.ovf.get(k)
+            if b is None:
+                del self.ovf[k]
+                changed = True
+            elif a != b:
+                # the same operation on the same operand terms with different operand intervals: keep it with the hulls
+                if len(a) >= 7 and len(b) >= 7 and a[:5] == b[:5] and a[5] is not None and b[5] is not None \
+                        and a[6] is not None and b[6] is not None:
+                    n = a[:5] + (hull(a[5], b[5]), hull(a[6], b[6]))
+                    if n != a:
+                        self.ovf[k] = n
+                        changed = True
+                else:
+                    del self.ovf[k]
+                    changed = True
+        for d_self, d_o in ((self.alias, o.alias), (self.cmp, o.cmp), (self.vf, o.vf), (self.disc, o.disc),
+                            (self.diff, o.diff), (self.avail, o.avail)):
             for k in list(d_self):
                 if d_o.get(k) != d_self[k]:
                     del d_self[k]
@@ -964,6 +1018,27 @@ class Intervals:
                         st.iv[(l, 1)] = (1, 1)      # always overflows: the Assert never passes
                     else:
                         st.iv[(l, 1)] = (0, 1)
+                    ak = self._avail_key(base, ta, tb)
+                    prev = st.avail.get(ak) if ak is not None else None
+                    if prev is not None:
+                        # the same checked operation on the same (unchanged) operands already passed its Assert: same value
+                        pr = self._avail_range(st, prev)
+                        if pr is not None:
+                            cur = st.iv[(l, 0)]
+                            if pr[0] <= cur[1] and pr[1] >= cur[0]:
+                                st.iv[(l, 0)] = clamp_to(pr, cur)
+                        st.iv[(l, 1)] = (0, 0)
+                    if base == "Add":
+                        # (x - y) + c with c <= y is at most x: the sum cannot overflow and is bounded by x's range
+                        # (only the upper end is bounded this way: both operands must be non-negative)
+                        ub = self._diff_upper(st, ta, tb) if (a is not None and b is not None and a[0] >= 0 and b[0] >= 0) else None
+                        xr = self.trng(st, ub) if ub is not None and not isinstance(ub, int) else \
+                            (st.iv.get(ub, self.tr[ub]) if ub is not None else None)
+                        if xr is not None and xr[1] <= otr[1]:
+                            cur = st.iv[(l, 0)]
+                            if xr[1] < cur[1] and cur[0] <= xr[1]:
+                                st.iv[(l, 0)] = (cur[0], xr[1])
+                            st.iv[(l, 1)] = (0, 0)
                 st.ovf[l] = (base, rv[2], rv[3], ta, tb, a, b)
                 return
             if op in NEG:
@@ -1106,11 +1181,61 @@ class Intervals:
         ty = self.body.locals[l][0]
         return ty.startswith("&") or ty.startswith("*")
 
+    def _avail_range(self, st, prev):
+        if isinstance(prev, tuple) and prev[0] == "R":
+            return (prev[1], prev[2])
+        if isinstance(prev, int):
+            return st.iv.get(prev, self.tr[prev])
+        return self.trng(st, prev)
+
+    @staticmethod
+    def _avail_key(base, ta, tb):
+        if ta is None or tb is None or base not in ("Add", "Sub", "Mul"):
+            return None
+        if base in ("Add", "Mul") and repr(tb) < repr(ta):
+            ta, tb = tb, ta
+        return (base, ta, tb)
+
+    def _diff_upper(self, st, ta, tb):
+        """for a sum ta + tb: a term x with ta + tb <= x, when one operand is a recorded difference x - y and the other is
+        y itself or is known to be <= y"""
+        for tx, tc in ((ta, tb), (tb, ta)):
+            df = st.diff.get(tx) if tx is not None else None
+            if df is not None and tc is not None:
+                if tc == df[1] or self.has_rel(st, tc, "<=", df[1]):
+                    return df[0]
+        # y + c with c <= (x - y): at most x
+        if ta is not None and tb is not None and st.diff:
+            for d, (x, y) in st.diff.items():
+                for ty, tc in ((ta, tb), (tb, ta)):
+                    if y == ty and (tc == d or self.has_rel(st, tc, "<=", d)):
+                        return x
+        return None
+
     def _result_relations(self, st, l, ov):
         """l = a (op) b did not overflow: order facts between the result and its operands"""
         base, oa, ob, ta, tb, ra, rb = ov
         if ra is None or rb is None:
             return
+        ak = self._avail_key(base, ta, tb)
+        if ak is not None:
+            prev = st.avail.get(ak)
+            if prev is not None and prev != l and prev != st.alias.get(l):
+                pr = self._avail_range(st, prev)
+                if pr is not None and isinstance(l, int) and self.tr[l] is not None:
+                    cur = st.iv.get(l, self.tr[l])
+                    if pr[0] <= cur[1] and pr[1] >= cur[0]:
+                        st.iv[l] = clamp_to(pr, cur)
+                        al = st.alias.get(l)
+                        if al is not None and not isinstance(al, int):
+                            st.iv[al] = st.iv[l]
+                if not (isinstance(prev, tuple) and prev[0] == "R"):
+                    lt = st.alias.get(l, l)
+                    st.rel.add((lt, "<=", prev))
+                    st.rel.add((prev, "<=", lt))
+            elif prev is None:
+                st.avail[ak] = st.alias.get(l, l)
+        l = st.alias.get(l, l)      # the term operands reading this local resolve to
         if base == "Add":
             if rb[0] >= 1 and ta is not None and ta != l:
                 st.rel.add((ta, "<", l))
@@ -1120,11 +1245,24 @@ class Intervals:
                 st.rel.add((tb, "<", l))
             elif ra[0] >= 0 and tb is not None and tb != l:
                 st.rel.add((tb, "<=", l))
+            # (x - y) + c with c <= y stays at or below x; with c == y it is x again (the window idiom
+            # `start = len - n; end = start + m`)
+            ub = self._diff_upper(st, ta, tb)
+            if ub is not None and ub != l:
+                self.add_rel(st, l, "<=", ub)
         elif base == "Sub":
             if rb[0] >= 1 and ta is not None and ta != l:
                 st.rel.add((l, "<", ta))
             elif rb[0] >= 0 and ta is not None and ta != l:
                 st.rel.add((l, "<=", ta))
+            if ta is not None and tb is not None and ta != l and tb != l:
+                st.diff[l] = (ta, tb)
+        elif base == "Mul":
+            # a * b did not overflow: with b >= 1 (and a >= 0) the product is at least a
+            if rb[0] >= 1 and ra[0] >= 0 and ta is not None and ta != l:
+                st.rel.add((ta, "<=", l))
+            if ra[0] >= 1 and rb[0] >= 0 and tb is not None and tb != l:
+                st.rel.add((tb, "<=", l))
 
     def decide(self, op, a, b, st=None, oa=None, ob=None):
         if op == "Lt":
@@ -1435,6 +1573,19 @@ class Intervals:
             rr = RET_RANGES.get(c)
             if rr is not None:
                 new = rr if new is None else ((max(new[0], rr[0]), min(new[1], rr[1])) if rr[0] <= new[1] and rr[1] >= new[0] else new)
+            gp = GETTERS.get(c)
+            if gp is not None and len(args_ops) == 1 and op_local(args_ops[0]) is not None:
+                # `fn len(&self) -> usize { self.top }`: the result is the current value of that field
+                gt = self.place_term([op_local(args_ops[0]), gp])
+                if gt is not None and not isinstance(gt, int):
+                    self.term_tr.setdefault(gt, tr)
+                    fk = self.place_field([op_local(args_ops[0]), gp])
+                    if fk is not None:
+                        self.term_field.setdefault(gt, fk)
+                    new_alias = gt
+                    r0 = self.trng(st, gt)
+                    if r0 is not None:
+                        new = r0 if new is None else ((max(new[0], r0[0]), min(new[1], r0[1])) if r0[0] <= new[1] and r0[1] >= new[0] else new)
         else:
             dty = self.body.locals[l][0]
             # ---- counting ranges ------------------------------------------------------------
@@ -1810,6 +1961,9 @@ class Intervals:
             return True, "condition is constant by intervals"
         if kind.startswith("overflow:") and len(ops) == 2:
             base = kind.split(":")[1]
+            ak = self._avail_key(base, self.term_of(st, ops[0]), self.term_of(st, ops[1]))
+            if ak is not None and ak in st.avail:
+                return True, "the same checked operation on the same unchanged operands already passed"
             ty = self.op_type(ops[0]) or self.op_type(ops[1])
             if ty is None:
                 # both operands are places/constants: the overflow tuple's local knows the type
@@ -1843,6 +1997,12 @@ class Intervals:
                     if 0 <= y[0] and y[1] <= COUNTER_STEP and self.is_counter(x):
                         self.used_steps_assumption = True
                         return True, "64-bit monotone counter (assumption A-STEPS)"
+            if base == "Add" and tr is not None and a is not None and b is not None and a[0] >= 0 and b[0] >= 0:
+                ub = self._diff_upper(st, ta, tb)
+                if ub is not None:
+                    xr = self.trng(st, ub) if not isinstance(ub, int) else st.iv.get(ub, self.tr[ub])
+                    if xr is not None and xr[1] <= tr[1]:
+                        return True, "(x - y) + c with c <= y stays at or below x"
             if base == "Add" and tr is not None and b is not None and a is not None:
                 # a + c where a < x for some x of the same type: a <= MAX - 1 (and transitively for small constants)
                 for (x, o, y) in st.rel:
